@@ -31,7 +31,8 @@ ASSUMPTIONS = ['float tolerance rtol 1e-5 (1e-4 for float32 waveforms)']
 @st.composite
 def _case(draw):
     spec = draw(D.dataset_spec(dense=True, raw=False, naming='ks', amplitudes=True,
-                               int_templates=False, full_feature_rows=True, max_nc=12))
+                               int_templates=False, full_feature_rows=True, max_nc=12,
+                               probe_labels=True))
     return {'spec': spec, 'factor': draw(st.sampled_from([1, 1.0, 2.5, 1e-6]))}
 
 
@@ -136,8 +137,10 @@ def check(case):
                             key='durations', observed=du[k], expected=exps)
             # template probes
             tp = np.asarray(must_return('templates_probes', lambda: m.templates_probes))
-            same_array('templates_probes', tp, np.zeros(spec['nt']), key='templates-probes',
-                       dtype=False)
+            labels = T.probes if T.probes is not None else np.zeros(spec['nc'], dtype=np.int32)
+            tch = np.asarray(m.templates_channels)
+            same_array('templates_probes (stored probe label of the peak channel)', tp,
+                       labels[tch.astype(np.int64)], key='templates-probes', dtype=False)
             # depths
             dp = must_return('get_depths', m.get_depths)
             if T.pcf is None:
